@@ -130,6 +130,8 @@ func runC06(seed int64, n int, dir string, _ []string) {
 	zoneLaws(o)
 	floatTexts(g, o, 2*n)
 	floatFormats(g, o, n)
+	timeFormats(g, o, n)
+	datetimeFormats(g, o, n)
 	dateTexts(g, o, 2*n)
 
 	// exhaustive Kleene tables against min/max/negation, on the real ternary package
